@@ -119,3 +119,53 @@ def classify(prop, clause, detail, w, step):
     verb = w.script[step].split(" ")[0] if step < len(w.script) else ""
     sig["verb"] = verb
     return sig
+
+
+def run_strict_walks(seed, tier, n_quick, n_thorough):
+    from walk import StrictWalk
+    rng = Rng(seed, "strict")
+    n = n_quick if tier == "quick" else n_thorough
+    h = Proc([HARNESS_BIN], "harness")
+    walks = []
+    try:
+        for i in range(n):
+            h.ask("session.reset")
+            w = StrictWalk(Rng(seed, f"strict:{i}"), h, adversarial=False, length=rng.choice([30, 60, 120]),
+                           profile="backlog" if i % 4 == 3 else "default")
+            w.run()
+            walks.append(w)
+    finally:
+        h.close()
+    reqs = []
+    for w in walks:
+        reqs.append("session.reset")
+        reqs += w.script
+    model = driver_batch(reqs)
+    pos = 0
+    for w in walks:
+        pos += 1
+        w.model = model[pos:pos + len(w.script)]
+        pos += len(w.script)
+        w.first_diff = None
+        for i, (a, b) in enumerate(zip(w.out, w.model)):
+            if canon(a) != canon(b):
+                w.first_diff = i
+                break
+    return walks
+
+
+def monitor_strict(report, walks, prop="C08"):
+    ok = True
+    resolved = 0
+    for w in walks:
+        for clause, detail, step in w.violations:
+            ok = False
+            report.add_finding(Finding(prop, "mon:C08", {"clause": clause}, detail, w.script[:step + 1] + ["# " + detail]))
+        for i, o in enumerate(w.out):
+            if o.startswith("res=panic") or o == "res=died":
+                ok = False
+                report.add_finding(Finding(prop, "mon:C08", {"clause": "panic"}, "engine panicked under a time-following driver", w.script[:i + 1]))
+        resolved += w.nuser - len(w.unresolved_retained())
+    report.count("strict.operations-resolved", resolved)
+    report.obligation("mon:C08", "monitor", ok, f"{len(walks)} runs of a driver that services only at reported times against a responsive broker: no lost wake-up, no idle spin")
+    return ok
